@@ -888,7 +888,7 @@ def check_selected(ctx: fw.Ctx, ds: list[dict], s: dict, ids: list[str], exclude
     if ids != exp:
         bad = set(ids) ^ set(exp)
         small = [d for d in ds if real_id(d) in bad] if len(ds) > 8 else ds
-        if set(ids) == set(exp) and len(ds) <= 8:
+        if sorted(ids) == sorted(exp):
             what = 'selected handlers are not in registration order'
         else:
             what = 'selected handlers <> handlers whose declared criteria hold'
